@@ -18,8 +18,25 @@ def sh(cmd, cwd=None, timeout=3600):
 
 
 patch = os.path.join(src, "SEED", "patch.diff")
+filed = "/verif/seeded/" + name
+refiled = False
 if not os.path.exists(patch):
-    sys.exit("no patch.diff in " + src)
+    # the agent's worktree is gone: re-evaluate from what was filed under /verif/seeded/<name>
+    if not os.path.exists(os.path.join(filed, "meta.json")):
+        sys.exit("no patch.diff in " + src)
+    old = json.load(open(os.path.join(filed, "meta.json")))
+    src = "/tmp/seedsrc/" + name
+    shutil.rmtree(src, ignore_errors=True)
+    os.makedirs(os.path.join(src, "SEED"))
+    shutil.copy(os.path.join(filed, "patch.diff"), os.path.join(src, "SEED", "patch.diff"))
+    if os.path.exists(os.path.join(filed, "notes.md")):
+        shutil.copy(os.path.join(filed, "notes.md"), os.path.join(src, "SEED", "notes.md"))
+    subprocess.run("git init -q", shell=True, cwd=src)
+    for d in old.get("demo_files", []):
+        os.makedirs(os.path.dirname(os.path.join(src, d)), exist_ok=True)
+        shutil.copy(os.path.join(filed, os.path.basename(d)), os.path.join(src, d))
+    patch = os.path.join(src, "SEED", "patch.diff")
+    refiled = True
 os.makedirs("/tmp/seedchk", exist_ok=True)
 sh("git -C /repo worktree remove --force %s" % wt)
 rc, out = sh("git -C /repo worktree add --detach %s HEAD" % wt)
